@@ -211,6 +211,98 @@ fn check_lib<Gr: GraphLike>(family: &'static str, index: u64, backend: &str, c: 
 // O4: independent mini parser for the QASM text Circuit::to_qasm emits
 // ---------------------------------------------------------------------------------
 
+/// value (in radians) of an OpenQASM parameter expression: numbers, `pi`, + - * /, unary
+/// minus, parentheses
+pub fn eval_angle(src: &str) -> Result<f64, String> {
+    struct P<'a> {
+        b: &'a [u8],
+        i: usize,
+    }
+    impl<'a> P<'a> {
+        fn ws(&mut self) {
+            while self.i < self.b.len() && (self.b[self.i] as char).is_whitespace() {
+                self.i += 1;
+            }
+        }
+        fn expr(&mut self) -> Result<f64, String> {
+            let mut v = self.term()?;
+            loop {
+                self.ws();
+                match self.b.get(self.i) {
+                    Some(b'+') => {
+                        self.i += 1;
+                        v += self.term()?;
+                    }
+                    Some(b'-') => {
+                        self.i += 1;
+                        v -= self.term()?;
+                    }
+                    _ => return Ok(v),
+                }
+            }
+        }
+        fn term(&mut self) -> Result<f64, String> {
+            let mut v = self.factor()?;
+            loop {
+                self.ws();
+                match self.b.get(self.i) {
+                    Some(b'*') => {
+                        self.i += 1;
+                        v *= self.factor()?;
+                    }
+                    Some(b'/') => {
+                        self.i += 1;
+                        v /= self.factor()?;
+                    }
+                    _ => return Ok(v),
+                }
+            }
+        }
+        fn factor(&mut self) -> Result<f64, String> {
+            self.ws();
+            match self.b.get(self.i) {
+                Some(b'-') => {
+                    self.i += 1;
+                    Ok(-self.factor()?)
+                }
+                Some(b'+') => {
+                    self.i += 1;
+                    self.factor()
+                }
+                Some(b'(') => {
+                    self.i += 1;
+                    let v = self.expr()?;
+                    self.ws();
+                    if self.b.get(self.i) != Some(&b')') {
+                        return Err("missing )".into());
+                    }
+                    self.i += 1;
+                    Ok(v)
+                }
+                Some(c) if c.is_ascii_digit() || *c == b'.' => {
+                    let st = self.i;
+                    while self.i < self.b.len() && (self.b[self.i].is_ascii_digit() || matches!(self.b[self.i], b'.' | b'e' | b'E') || (matches!(self.b[self.i], b'-' | b'+') && matches!(self.b[self.i - 1], b'e' | b'E'))) {
+                        self.i += 1;
+                    }
+                    std::str::from_utf8(&self.b[st..self.i]).unwrap().parse::<f64>().map_err(|e| e.to_string())
+                }
+                Some(b'p') if self.b[self.i..].starts_with(b"pi") => {
+                    self.i += 2;
+                    Ok(std::f64::consts::PI)
+                }
+                other => Err(format!("unexpected {:?} in angle expression", other.map(|c| *c as char))),
+            }
+        }
+    }
+    let mut p = P { b: src.as_bytes(), i: 0 };
+    let v = p.expr()?;
+    p.ws();
+    if p.i != p.b.len() {
+        return Err(format!("trailing input in angle expression '{src}'"));
+    }
+    Ok(v)
+}
+
 pub fn parse_qasm_lite(txt: &str) -> Result<Circ, String> {
     let mut n: Option<usize> = None;
     let mut gates = vec![];
@@ -232,7 +324,23 @@ pub fn parse_qasm_lite(txt: &str) -> Result<Circ, String> {
         // name(args) q[i], q[j]
         let (head, qargs) = match s.find(|c: char| c == ' ' || c == '(') {
             Some(p) if s.as_bytes()[p] == b'(' => {
-                let close = s.find(')').ok_or("missing )")?;
+                // matching parenthesis (the argument may itself contain parentheses)
+                let mut depth = 0i32;
+                let mut close = None;
+                for (k, ch) in s.char_indices().skip(p) {
+                    match ch {
+                        '(' => depth += 1,
+                        ')' => {
+                            depth -= 1;
+                            if depth == 0 {
+                                close = Some(k);
+                                break;
+                            }
+                        }
+                        _ => {}
+                    }
+                }
+                let close = close.ok_or("missing )")?;
                 (&s[..close + 1], s[close + 1..].trim())
             }
             Some(p) => (&s[..p], s[p..].trim()),
@@ -250,9 +358,11 @@ pub fn parse_qasm_lite(txt: &str) -> Result<Circ, String> {
             qs.push(q[a + 1..b].parse::<usize>().map_err(|e| e.to_string())?);
         }
         let phase = |arg: Option<&str>| -> Result<(i64, i64), String> {
+            // any arithmetic expression over numbers and `pi` (radians), e.g. 0.25*pi, pi/4,
+            // -3*pi/4, 0.785398: the printer's exact format is not part of the contract
             let a = arg.ok_or("missing phase")?.trim();
-            let a = a.strip_suffix("*pi").ok_or(format!("phase '{a}' not of the form x*pi"))?;
-            let x: f64 = a.trim().parse().map_err(|_| format!("bad float {a}"))?;
+            let radians = eval_angle(a)?;
+            let x = radians / std::f64::consts::PI;
             let den = 1i64 << 40;
             Ok(((x * den as f64).round() as i64, den))
         };
@@ -438,6 +548,15 @@ pub fn run() {
     if parse_qasm_lite("OPENQASM 2.0;\ninclude \"qelib1.inc\";\nqreg q[2];\nrz(0.25*pi) q[0];\ncx q[0], q[1];\nh q[1];\n").map(|c| c.gates.len()) != Ok(3) {
         c.harness_error("qasm_lite self-test failed");
         return;
+    }
+    for (e, want) in [("0.25*pi", 0.25), ("pi/4", 0.25), ("-3*pi/4", -0.75), ("(1+1)*pi/8", 0.25), ("1.5707963267948966", 0.5), ("2.5e-1*pi", 0.25)] {
+        match eval_angle(e) {
+            Ok(v) if (v / std::f64::consts::PI - want).abs() < 1e-12 => {}
+            other => {
+                c.harness_error(&format!("eval_angle self-test failed on {e}: {other:?}"));
+                return;
+            }
+        }
     }
     let (nq, depth, n) = t.pick((4usize, 30usize, 2000usize), (5usize, 60usize, 30_000usize));
     par_cases("clifford-t", n, move |r, i| {
